@@ -34,6 +34,22 @@ struct MoveZero {
     MoveZero &operator=(MoveZero &&o) noexcept { v = o.v; o.v = -54321; return *this; }
 };
 static long to_long(MoveZero &x) { return x.v; }
+// item whose constructor throws on demand (negative argument)
+struct ctor_exc {};
+struct Thrower {
+    long v;
+    Thrower(long x) : v(x) {
+        if (x < 0) throw ctor_exc{};
+    }
+};
+static long to_long(Thrower &x) { return x.v; }
+// item type with an initializer-list constructor: pushed emplace-style as (count, value); the observation is injective enough
+// to tell {v} from {1, v}: sum of the elements + 1000000 * (size - 1)
+static long to_long(std::vector<int> &x) {
+    long sum = 0;
+    for (int e : x) sum += e;
+    return sum + 1000000L * ((long)x.size() - 1);
+}
 template <typename X>
 static long to_long(X &x) { return (long)x; }
 template <typename T>
@@ -127,43 +143,22 @@ struct Armed {
     ~Armed() { g_deadline.store(0); }
 };
 
-// =============================== q / qv ===============================
+// =============================== q / qv / qm / qs / qx ===============================
+// Mode 0: items pushed as rvalues.  Mode 1 (qs): every push passes an LVALUE; the caller keeps one object per value and
+// pushes that same object again whenever the value is pushed again (a push must not consume its argument).
+// Mode 2 (qx): item constructed in place from a long; a negative argument makes the constructor throw: the push must
+// propagate the exception and leave the queue usable and unchanged (only issued while nobody waits, see notes/C09.md).
 template <typename T>
-static void run_plain(const vh::Case &cs) {
-    auto q = std::make_unique<queue<T>>();
-    bool created = true;
-    Table<future<T>> tab;
-    for (auto &op : cs.ops) {
-        if (!q || op.empty()) { reject(); continue; }
-        long ret = 0;
-        constexpr bool is_void = std::is_void_v<T>;
-        size_t want = 0;
-        switch (op[0]) {
-            case 1: want = is_void ? 1 : 2; break;
-            case 2: case 4: case 5: want = 1; break;
-            case 3: want = 2; break;
-            default: want = 0;
-        }
-        if (want == 0 || op.size() != want) { reject(); continue; }
-        switch (op[0]) {
-            case 1: {
-                if constexpr (is_void) { auto sp = q->push(); ret = (bool)sp; }
-                else { auto sp = q->push(make_item<T>(op[1])); ret = (bool)sp; }
-                break;
-            }
-            case 2: ret = tab.add([&] { return q->pop(); }); break;
-            case 3: { auto sp = q->unblock_pop(exc(op[1])); ret = (bool)sp; break; }
-            case 4: break;
-            case 5: q.reset(); break;
-        }
-        std::vector<long> o{0, ret, q ? (long)q->size() : 0, q ? (long)q->empty() : 1};
-        tab.scan(o);
-        vh::print_obs(o);
+struct q_open : queue<T> {
+    bool has_waiters() {
+        std::lock_guard _(this->_mx);
+        return !this->_awaiters.empty();
     }
-    (void)created;
-    q.reset();   // parked promises are dropped here, so that no future is destroyed while pending
-}
-
+};
+static void start_watchdog();
+struct Armed;
+template <typename T, int Mode>
+static void run_plain(const vh::Case &cs);
 // =============================== qc ===============================
 struct cco {
     struct promise_type {
@@ -257,7 +252,12 @@ static void run_limited(const vh::Case &cs) {
             }
             if (want == 0 || op.size() != want) { reject(); continue; }
             switch (op[0]) {
-                case 1: ret = pushes.add([&] { return q->push(make_item<T>(op[1])); }); break;
+                case 1:
+                    if constexpr (std::is_same_v<T, std::vector<int>>)
+                        ret = pushes.add([&] { return q->push((std::size_t)1, (int)op[1]); });   // emplace-style: vector(1, v)
+                    else
+                        ret = pushes.add([&] { return q->push(make_item<T>(op[1])); });
+                    break;
                 case 2: ret = pops.add([&] { return q->pop(); }); break;
                 case 3: { auto sp = q->unblock_pop(exc(op[1])); ret = (bool)sp; break; }
                 case 4: break;
@@ -473,18 +473,71 @@ static void run_two_phase(const vh::Case &cs) {
     q.reset();
 }
 
+template <typename T, int Mode>
+static void run_plain(const vh::Case &cs) {
+    start_watchdog();
+    auto q = std::make_unique<q_open<T>>();
+    Table<future<T>> tab;
+    std::map<long, std::shared_ptr<std::conditional_t<std::is_void_v<T>, int, T>>> lvalues;
+    for (auto &op : cs.ops) {
+        if (!q || op.empty()) { reject(); continue; }
+        long ret = 0;
+        constexpr bool is_void = std::is_void_v<T>;
+        size_t want = 0;
+        switch (op[0]) {
+            case 1: want = is_void ? 1 : 2; break;
+            case 2: case 4: case 5: want = 1; break;
+            case 3: want = 2; break;
+            default: want = 0;
+        }
+        if (want == 0 || op.size() != want) { reject(); continue; }
+        if (Mode == 2 && op[0] == 1 && op[1] < 0 && q->has_waiters()) { reject(); continue; }
+        Armed armed;
+        switch (op[0]) {
+            case 1: {
+                if constexpr (is_void) { auto sp = q->push(); ret = (bool)sp; }
+                else if constexpr (Mode == 1) {
+                    auto &slot = lvalues[op[1]];
+                    if (!slot) slot = std::make_shared<T>(make_item<T>(op[1]));
+                    auto sp = q->push(*slot);
+                    ret = (bool)sp;
+                } else if constexpr (Mode == 2) {
+                    try {
+                        auto sp = q->push((long)op[1]);
+                        ret = (bool)sp;
+                    } catch (const ctor_exc &) {
+                        ret = -1;
+                    }
+                } else { auto sp = q->push(make_item<T>(op[1])); ret = (bool)sp; }
+                break;
+            }
+            case 2: ret = tab.add([&] { return q->pop(); }); break;
+            case 3: { auto sp = q->unblock_pop(exc(op[1])); ret = (bool)sp; break; }
+            case 4: break;
+            case 5: q.reset(); break;
+        }
+        std::vector<long> o{0, ret, q ? (long)q->size() : 0, q ? (long)q->empty() : 1};
+        tab.scan(o);
+        vh::print_obs(o);
+    }
+    q.reset();   // parked promises are dropped here, so that no future is destroyed while pending
+}
+
 int main(int argc, char **argv) {
     if (argc < 2) return 2;
     for (auto &cs : vh::read_cases(argv[1])) {
         std::printf("CASE %s\n", cs.name.c_str());
         std::fflush(stdout);
-        if (cs.engine == "q") run_plain<int>(cs);
-        else if (cs.engine == "qv") run_plain<void>(cs);
-        else if (cs.engine == "qm") run_plain<std::unique_ptr<int>>(cs);
+        if (cs.engine == "q") run_plain<int, 0>(cs);
+        else if (cs.engine == "qv") run_plain<void, 0>(cs);
+        else if (cs.engine == "qm") run_plain<std::unique_ptr<int>, 0>(cs);
+        else if (cs.engine == "qs") run_plain<MoveZero, 1>(cs);
+        else if (cs.engine == "qx") run_plain<Thrower, 2>(cs);
         else if (cs.engine == "qc") run_coro(cs);
         else if (cs.engine == "lq") run_limited<int>(cs);
         else if (cs.engine == "lqm") run_limited<std::unique_ptr<int>>(cs);   // move-only items, pushed as rvalues
         else if (cs.engine == "lqs") run_limited<MoveZero>(cs);               // item whose move constructor zeroes the source
+        else if (cs.engine == "lqv") run_limited<std::vector<int>>(cs);       // initializer-list type, pushed emplace-style (1, v)
         else if (cs.engine == "q2") run_two_phase(cs);
         else if (cs.engine == "qcb") run_callback(cs);
         std::printf("END\n");
